@@ -161,41 +161,75 @@ class Sim:
         self._unambig[key] = res
         return res
 
-    def show_arg(self, iface, name, idx, a, gtobj):
-        """expected display of one argument"""
+    def arg_info(self, iface, name, idx, a, gtobj, dialect_free=True):
+        """neutral projection of one argument as the tool is expected to display it:
+        {name, kind, value, labels, nil_type, obj}"""
         known = iface in self.cands and (iface, name) != ('wl_registry', 'bind')
-        prefix = ''
         desc = None
+        info = {'name': None, 'kind': None, 'value': None, 'labels': None, 'nil_type': None, 'obj': None}
         if known:
             md = self.msg_desc(iface, name)
             desc = md['args'][idx]
-            prefix = desc['name'] + '='
+            info['name'] = desc['name']
         k = a['k']
         if k in 'iu':
-            s = str(a['v'])
+            info['kind'] = 'int'
+            info['value'] = a['v']
             if desc is not None:
                 e = wlxml.arg_enum(iface, name, desc)
                 if e:
                     es = wlxml.find_enum(self.cands, iface, e)
                     if es:
-                        s += ':' + '&'.join(wlxml.labels_for(es[0], a['v']))
-            return prefix + s
-        if k == 'f':
-            return prefix + 'FLOAT'
-        if k == 's':
+                        info['labels'] = wlxml.labels_for(es[0], a['v'])
+        elif k == 'f':
+            info['kind'] = 'float'
+            info['value'] = a['v']          # raw 24.8; the decoded value depends on the dialect
+        elif k == 's':
             if a['v'] is None:
-                return prefix + 'null ' + ((desc or {}).get('interface') or '??')
-            return prefix + repr(a['v'])
-        if k == 'o':
+                info['kind'] = 'nil'
+                info['nil_type'] = (desc or {}).get('interface')
+            else:
+                info['kind'] = 'str'
+                info['value'] = a['v']
+        elif k == 'o':
             if a['v'] is None:
-                return prefix + 'null ' + ((desc or {}).get('interface') or '??')
-            return prefix + label(*gtobj)
-        if k == 'n':
-            return prefix + 'new ' + label(*gtobj)
-        if k == 'a':
-            return prefix + '[...]'
-        if k == 'h':
-            return prefix + 'fd %d' % a['v']
+                info['kind'] = 'nil'
+                info['nil_type'] = (desc or {}).get('interface')
+            else:
+                info['kind'] = 'obj'
+                info['obj'] = list(gtobj)
+        elif k == 'n':
+            info['kind'] = 'new'
+            info['obj'] = list(gtobj)
+        elif k == 'a':
+            info['kind'] = 'array'
+        elif k == 'h':
+            info['kind'] = 'fd'
+            info['value'] = a['v']
+        else:
+            raise ValueError(k)
+        return info
+
+    @staticmethod
+    def show_info(info):
+        pre = info['name'] + '=' if info['name'] is not None else ''
+        k = info['kind']
+        if k == 'int':
+            return pre + str(info['value']) + (':' + '&'.join(info['labels']) if info['labels'] else '')
+        if k == 'float':
+            return pre + 'FLOAT'
+        if k == 'str':
+            return pre + repr(info['value'])
+        if k == 'nil':
+            return pre + 'null ' + (info['nil_type'] or '??')
+        if k == 'obj':
+            return pre + label(*info['obj'])
+        if k == 'new':
+            return pre + 'new ' + label(*info['obj'])
+        if k == 'array':
+            return pre + '[...]'
+        if k == 'fd':
+            return pre + 'fd %d' % info['value']
         raise ValueError(k)
 
     # ------------------------------------------------------------------ emit
@@ -206,6 +240,7 @@ class Sim:
         gt_objs = []
         cargs = []
         shown = []
+        argv = []
         destroyed = None
         created_t = None
         if not target.alive:
@@ -238,12 +273,14 @@ class Sim:
                 gto = ob.key()
                 gt_objs.append([i, 'new'] + gto)
             cargs.append(a)
-            shown.append(self.show_arg(target.type, name, i, a, gto))
+            info = self.arg_info(target.type, name, i, a, gto)
+            argv.append(info)
+            shown.append(self.show_info(info))
         body = '%s.%s(%s)' % (label(*target.key()), name, ', '.join(shown))
         alive = sorted([o.id, o.gen] for o in self.live())
         rec = {'t_us': t, 'send_c': send_c, 'iface': target.type, 'id': target.id, 'name': name, 'args': cargs,
                'gt': {'target': target.key(), 'objs': gt_objs, 'destroyed': destroyed, 'created_t_us': created_t,
-                      'implicit': implicit, 'alive': alive, 'body': body}}
+                      'implicit': implicit, 'alive': alive, 'body': body, 'argv': argv}}
         self.hist.append(rec)
         return rec
 
